@@ -136,7 +136,8 @@ fn validate_case(r: &mut Rng, fam: u64) -> (Vec<P3>, Vec<[u32; 3]>) {
     let base = |r: &mut Rng| -> (Vec<P3>, Vec<[u32; 3]>) {
         for _ in 0..8 {
             let cloud = match r.below(4) { 0 => solid3(r), 1 => merged_solid(r), 2 => { let n = 4 + r.below(40) as usize; cloud3(r, 2, n) } _ => { let n = 4 + r.below(30) as usize; cloud3(r, 1, n) } };
-            if let Ok((v, t)) = try_convex_hull(&cloud) { if t.len() >= 4 && v.len() >= 4 { return (v, t); } }
+            // (the generator must survive a hull that panics: the case then falls back to the next cloud / the tetrahedron)
+            if let Ok(Ok((v, t))) = std::panic::catch_unwind(std::panic::AssertUnwindSafe(|| try_convex_hull(&cloud))) { if t.len() >= 4 && v.len() >= 4 { return (v, t); } }
         }
         (vec![P3::new(0.0, 0.0, 0.0), P3::new(1.0, 0.0, 0.0), P3::new(0.0, 1.0, 0.0), P3::new(0.0, 0.0, 1.0)], vec![[0, 2, 1], [0, 1, 3], [1, 2, 3], [2, 0, 3]])
     };
